@@ -4,6 +4,7 @@ import AioProps.C09Conserve
 import AioProps.C09Pause
 import AioProps.C09Entry
 import AioProps.C09NoParkExc
+import AioProps.C09LowCap
 /-!
 # C09 — property theorems (body decoding: transparent, memory-bounded, always progresses)
 
@@ -473,5 +474,27 @@ theorem readline_after_own_refill_error_both_versions :
     (step (k13Run false) .preadLine).1.waiter = true ∧
     (step (k13Run true) .preadLine).2 = .err .contentEncoding ∧ (step (k13Run true) .preadLine).1.waiter = false := by
   decide +kernel
+
+/-! ## `BaseRequest.read()` keeps the decoder capped -/
+
+/-- **`request.read()` (and `post()`/`text()`/`json()` through it) never lifts the decoder's
+output cap**: it raises the read-buffer limit to `client_max_size`, not to "everything" — with a
+finite `client_max_size` the reader's low-water mark stays below `sys.maxsize` through the whole
+read loop (every re-entrant refill included), so `DeflateBuffer` keeps passing a finite
+`max_length = max(read_bufsize, low_water)` and the high-water flow control stays in force. -/
+theorem request_read_keeps_decoder_cap {c : Codec} (w : World c) (cms : Nat)
+    (hl : w.low < maxsize) (hc : cms < maxsize) :
+    (reqRead w cms).1.low < maxsize ∧ maxLen (reqRead w cms).1 = max (reqRead w cms).1.limit (reqRead w cms).1.low := by
+  have h1 : LowCapped (reqRead w cms).1 := by
+    simp only [reqRead]
+    repeat' split
+    all_goals first
+      | exact hl
+      | exact lowc_setChunk cms hc w hl
+      | (apply lowc_reqLoop; first | exact hl | exact lowc_setChunk cms hc w hl)
+  refine ⟨h1, ?_⟩
+  have : ¬ ((reqRead w cms).1.low ≥ maxsize) := by
+    have := h1; unfold LowCapped at this; omega
+  simp [maxLen, this]
 
 end Aio.C09
